@@ -277,6 +277,13 @@ theorem disabled_gates :
       occursBefore h (· == .acctFlag .disabled) isOp = true := by decide
 
 open Mfi.Gen.Skel in
+/-- … on every path: the ACCOUNT_DISABLED test sits at conditional depth 0 of each of these handlers -/
+theorem disabled_gates_unconditional :
+    ∀ h ∈ [(deposit, deposit_cond), (withdraw, withdraw_cond), (borrow, borrow_cond), (repay, repay_cond),
+           (close_balance, close_balance_cond)],
+      unconditionally h.1 h.2 (· == .acctFlag .disabled) = true := by decide
+
+open Mfi.Gen.Skel in
 /-- every position-changing user handler re-sorts the array after the change -/
 theorem handlers_sort_after_change :
     ∀ h ∈ [deposit, withdraw, borrow, repay, close_balance, liquidate, kamino_deposit, kamino_withdraw,
